@@ -179,6 +179,30 @@ def run(ctx):
         record(t, meta, {"src": "long-run", "version": 2, "mode": st.get("mode"), "step": how})
         n_long += 1
     res.coverage["long_run_requests"] = n_long
+    # scale: parts whose size needs more than one / two bytes to state (transactions with 252 / 253 / 300 / 700
+    # inputs - beyond 64 KiB -, receipts around 64 KiB, 255 proof nodes of 255 bytes)
+    n_big = 0
+    for n_in in (252, 253, 300) + ((700, 1500) if not ctx.quick else (700,)):
+        req, st = reqs.make(ctx.rng.choice(["sign_legacy", "sign_segwit"]), ctx.rng)
+        st["tx"] = enc.random_tx(ctx.rng, n_in=n_in, n_out=ctx.rng.choice([1, 252, 253]))
+        st["input"] = ctx.rng.choice([0, n_in - 1, 255, 256 if n_in > 256 else 0])
+        req["message"]["tx"] = enc.tx_bytes(st["tx"]).hex()
+        req["message"]["input"] = st["input"]
+        pol = FaithfulSignPolicy(size=lambda part, remaining: min(255, max(1, remaining)))
+        t, meta = lbench.run(req, st, pol, ctx.rng, coop=True)
+        record(t, meta, {"src": "scale", "version": 2, "mode": st.get("mode"), "inputs": n_in})
+        n_big += 1
+    for size in (65000, 65535 - 60, 65536, 70000):
+        req, st = reqs.make("sign_legacy", ctx.rng)
+        st["receipt"] = reqs.receipt(ctx.rng, size=size)
+        req["auth"]["receipt"] = st["receipt"].hex()
+        st["proof"] = [bytes(ctx.rng.getrandbits(8) for _ in range(255)) for _ in range(255)]
+        req["auth"]["receipt_merkle_proof"] = [n.hex() for n in st["proof"]]
+        pol = FaithfulSignPolicy(size=lambda part, remaining: min(255, max(1, remaining)))
+        t, meta = lbench.run(req, st, pol, ctx.rng, coop=True)
+        record(t, meta, {"src": "scale", "version": 2, "mode": "legacy", "receipt": size})
+        n_big += 1
+    res.coverage["requests_at_scale"] = n_big
     res.coverage["model_drift"] = drift
     verdicts, stats = tlc.validate("TraceSignExchange", "Trace_SignExchange.cfg", traces, shards=14)
     res.checker_cmds.append("tlc -workers 1 -config Trace_SignExchange.cfg TraceSignExchange (x%d shards)" % stats["jvms"])
